@@ -41,6 +41,7 @@ EXES = {
     "useb": "b2 = b; b3 = b; print b b2 b3;",
     "usey": "y2 = y; y3 = y; print y.count() y2.count() y3.count();",
     "usea": "a2 = a + 1; a3 = a + 1; print a a2 a3;",
+    "retnone": "return;",
     "rint": "r = 5;",
     "rset": 'r.set@2("k");',
     "useout": "for i in 1 to 3 loop out.concat(i * i); end loop; print out.count() out.at(2);",
@@ -51,7 +52,9 @@ BAD = {"syn": "a = ;", "eof": "a = (1 +", "undef": "zz9 = nosuch + 1;", "str": '
        "deepelse": "if a > 0 then a = 1; else a = ; end if;", "deepb": "begin a = ; exception when others then a = 1; end;",
        "deeph": "begin a = 1; exception when others then a = ; end;", "deepfn": "function g9() return integer is begin a9 = ; return 1; end;",
        "deepnest": "for i in 1 to 2 loop while a < 0 loop if a > 0 then a = ; end if; end loop; end loop;", "emptyw": "while a < 0 loop end loop;"}
-EXPRS = {"add": "a + 1", "str": 'b + "?"', "div": "1 / (a - a)", "tab": "tab(2, a)", "tup": "tup(a, b)", "const": "40 + 2"}
+EXPRS = {"add": "a + 1", "str": 'b + "?"', "div": "1 / (a - a)", "tab": "tab(2, a)", "tup": "tup(a, b)", "const": "40 + 2",
+         # plain constants: their value lives in the expression node, the pointer handed out must not
+         "lit": '"a constant string of some length"', "int": "42", "nul": "null"}
 BADEXPR = {"syn": "a +", "undef": "nosuch * 2"}
 
 
@@ -325,6 +328,9 @@ def run_exe(m, c, name):
     elif name == "tab":
         cx.vars["T"] = ("T", [a, a])
         cx.vars["R"] = ("R", [a, b])
+    elif name == "retnone":
+        cx.returned = None          # the last run returned no value
+        cx.stop = True
     elif name == "rint":
         cx.vars["R"] = ("i", 5)
     elif name == "rset":
@@ -415,7 +421,7 @@ def mk_pexe(c, name, withpos):
 
 
 for nm in EXES:
-    OPS.append(("pexe-%s" % nm, mk_pexe(0, nm, 0), nm in ("inc", "ret", "div", "fun", "bind", "raise", "rehandle", "falldiv", "rint", "rset")))
+    OPS.append(("pexe-%s" % nm, mk_pexe(0, nm, 0), nm in ("inc", "ret", "retnone", "div", "fun", "bind", "raise", "rehandle", "falldiv", "rint", "rset")))
 OPS.append(("pexe-inc-pos", mk_pexe(0, "inc", 1), False))
 
 
@@ -474,21 +480,29 @@ def mk_exec(two, c):
 OPS.append(("exec", mk_exec(False, 0), True))
 
 
-def mk_script(name):
-    """parse and run in one step (keeps sequences that need a script after a host-side update short)"""
+def mk_script(name, reset=False):
+    """parse and run in one step (keeps sequences that need a script after a host-side update short); with reset the host
+    first clears a stop condition left by an earlier run"""
     def fn(m):
+        r0 = ([], [])
+        if reset:
+            if m.ctx[0] is None:
+                return None
+            r0 = op_reset(0)(m)
         r1 = mk_pexe(0, name, 0)(m)
         if r1 is None:
             return None
         r2 = mk_exec(False, 0)(m)
         if r2 is None:
             return None
-        return r1[0] + r2[0], r1[1] + r2[1]
+        return r0[0] + r1[0] + r2[0], r0[1] + r1[1] + r2[1]
     return fn
 
 
 for nm in ("useb", "usey", "usea", "tab", "useout"):
     OPS.append(("script-%s" % nm, mk_script(nm), True))
+for nm in ("ret", "retnone", "rets"):
+    OPS.append(("rscript-%s" % nm, mk_script(nm, reset=True), True))
 
 
 def op_reg_out(m):
@@ -674,13 +688,13 @@ def mk_pexpr(name, bad):
         ops.append("k.pexpr 0 0 %s" % hx(EXPRS[name] + ";"))
         ops.append("k.etype 0 0")
         m.exp = (name, 0)
-        et = {"add": (2, 0), "str": (4, 0), "div": (2, 0), "tab": (2, 1), "tup": (7, 0), "const": (2, 0)}[name]
+        et = {"add": (2, 0), "str": (4, 0), "div": (2, 0), "tab": (2, 1), "tup": (7, 0), "const": (2, 0), "lit": (4, 0), "int": (2, 0), "nul": (0, 0)}[name]
         return ops, pexp + [None] * (len(ops) - len(pre) - 2) + [("ptr", 1), ("etype", et)]
     return fn
 
 
 for nm in EXPRS:
-    OPS.append(("pexpr-%s" % nm, mk_pexpr(nm, False), nm in ("add", "div")))
+    OPS.append(("pexpr-%s" % nm, mk_pexpr(nm, False), nm in ("add", "div", "lit")))
 for nm in BADEXPR:
     OPS.append(("pexpr-bad-%s" % nm, mk_pexpr(nm, True), nm == "syn"))
 
@@ -705,6 +719,10 @@ def op_eval(m):
         v = ("T", [a, a])
     elif name == "tup":
         v = ("R", [a, b])
+    elif name == "lit":
+        v = ("s", b"a constant string of some length")
+    elif name == "nul":
+        v = ("N", "u")
     else:
         v = ("i", 42)
     if v is None:
@@ -734,7 +752,7 @@ def op_freeexpr(m):
 
 
 OPS.append(("freeexe", op_freeexe, False))
-OPS.append(("freeexpr", op_freeexpr, False))
+OPS.append(("freeexpr", op_freeexpr, True))
 
 OPNAMES = [o[0] for o in OPS]
 OPFN = {o[0]: o[1] for o in OPS}
